@@ -461,7 +461,7 @@ namespace smt
         expr.vars.emplace(x_i, rational::ONE / cf);
 
         // these are the rows in which x_j appears..
-        std::unordered_set<row *> x_j_watches;
+        std::set<row *, row_cmp> x_j_watches;
         std::swap(x_j_watches, t_watches[x_j]);
         for (const auto &r : x_j_watches)
 #ifdef PARALLELIZE
@@ -518,6 +518,8 @@ namespace smt
         // we add a new row into the tableau..
         new_row(x_j, expr);
     }
+
+    bool lra_theory::row_cmp::operator()(const row *r0, const row *r1) const noexcept { return r0->x < r1->x; }
 
     void lra_theory::new_row(const var &x, const lin &l) noexcept
     {
